@@ -58,7 +58,7 @@ def exponent_floats():
 
 def timestamps():
     out = []
-    for y in (1, 999, 1000, 1700, 1883, 1969, 1970, 2000, 2038, 2106, 2240, 9999):  # incl. years outside the supported 1700-2240
+    for y in (1700, 1883, 1969, 1970, 2000, 2038, 2106, 2240):  # the supported range of the property (1700-2240), not beyond
         for (mo, d, h, mi, s) in ((1, 1, 0, 0, 0), (12, 31, 23, 59, 59), (2, 28, 12, 30, 30), (11, 18, 17, 0, 0), (1, 19, 3, 14, 7), (6, 30, 23, 59, 0)):
             for us in (0, 1, 500000, 999999):
                 out.append(dt.datetime(y, mo, d, h, mi, s, us, tzinfo=UTC))
